@@ -219,6 +219,11 @@ func scenC08(w *vsim.World, spec *vsim.Spec) {
 	if spec.Tier == "thorough" {
 		mean = []int{30, 100, 300}[w.Choose("mean", 3)]
 	}
+	hotFileProfile = w.Choose("profile", 3) == 2
+	defer func() { hotFileProfile = false }()
+	if hotFileProfile {
+		w.Probe("hot-file-profile")
+	}
 	ops := genOps(w, "w", ns, mean, r.blk, true)
 	x := &executor{w: w, fs: r.fs, m: r.m, tag: "w", blk: r.blk}
 	done := false
